@@ -246,7 +246,7 @@ def run(argv):
                     thresholds = np.array(verif.util.parse_numbers(arg_next))
                 elif arg == "-q":
                     quantiles = np.array(verif.util.parse_numbers(arg_next))
-                    if np.min(quantiles) < 0 or np.max(quantiles) > 1:
+                    if len(quantiles) == 0 or np.min(quantiles) < 0 or np.max(quantiles) > 1:
                         verif.util.error("Quantiles must be between 0 and 1 inclusive")
                 elif arg == "-ms":
                     marker_sizes = verif.util.parse_ints(arg_next)
